@@ -1212,7 +1212,9 @@ resolve_obj_address		(vbi_decoder *		vbi,
 		return 0;
 	}
 
-	pointer = vtp->data.pop.pointer[packet * 24 + i * 2 + ((address >> 4) & 1)];
+	/* i = 1 ... 12: triplet number in the pointer packet. */
+	pointer = vtp->data.pop.pointer[packet * 24 + (i - 1) * 2
+					+ ((address >> 4) & 1)];
 
 	printv("... triplet pointer %d\n", pointer);
 
